@@ -90,6 +90,10 @@ func (sp *SAMLServiceProvider) validateLogoutResponseAttributes(response *types.
 
 func xmlUnmarshalElement(el *etree.Element, obj interface{}) error {
 	doc := etree.NewDocument()
+	// Write character references for CR (and TAB / LF in attribute values) so that
+	// encoding/xml's line-end normalization does not alter the element's values.
+	doc.WriteSettings.CanonicalText = true
+	doc.WriteSettings.CanonicalAttrVal = true
 	doc.SetRoot(el)
 	data, err := doc.WriteToBytes()
 	if err != nil {
